@@ -5,7 +5,6 @@
 namespace Kust.Reviewed
 
 def mapRangeSites : List (String × Nat × String) := [
-  ("(*api/internal/accumulator.nameReferenceTransformer).Transform", 1, "per-referrer-independent (C01 DESIGN: each referrer only mutates itself)"),
   ("(*api/internal/accumulator.refVarTransformer).UnusedVars", 1, "collect-then-sort-or-set-algebra"),
   ("(*api/types.Kustomization).FixKustomizationPreMarshalling", 1, "error-or-check-only"),
   ("(*api/types.VarSet).AsSlice", 1, "collect-then-sort-or-set-algebra"),
